@@ -28,7 +28,7 @@ package dns
 //@   writes msg
 // an empty list of character strings takes no room (the len methods count none for it); each string of a
 // non-empty list is bounded by packTxtString's contract
-//@ func packTxt [C01 C08 C16]
+//@ func packTxt [C01 C08 C16 C09]
 //@   requires 0 <= offset
 //@   ensures mono: ret1 == nil ==> offset <= ret0
 //@   ensures rng: ret1 == nil && offset <= len(msg) ==> ret0 <= len(msg)
